@@ -626,6 +626,7 @@ def run(chk) -> None:
     chk.assumptions = [
         "labels outside the enumerated classes (longer junk, other alphabets) are represented by the junk samples; only the structure of the normaliser is decided for them",
         "call histories: state carried by module-level objects and default arguments is modelled; rebinding through `global`, attributes set on functions/classes and caches of decorators are not (the evaluation stops with 'not evaluable')",
+        "a mutable class attribute (a list or dict in a class body) is folded anew at every reference: history carried through one is not visible to rule `import-history` (residual)",
     ]
     # evidence rules; unit-id, line-fields, dispatch-*, result-fields, fr3d-lines, dssr-name, guard-exact are evidence rules too whenever
     # their fact-level reading (checks/c19e.py) is possible, and form rules in the fallback
